@@ -403,6 +403,10 @@ class Builtins:
         a, b = args
         if isinstance(a, VClass) and isinstance(b, VClass):
             return VBool(a.info.is_subclass(I.repo, b.info))
+        if isinstance(b, VClass) and not isinstance(a, (VTuple, VInt, VBool)):
+            # first argument not a known class: an unconstrained answer (over-approximation; a TypeError for a non-class argument is
+            # not modelled - the callers under contract guard the call with inspect.isclass or pass obj.__class__)
+            return VBool(I.fresh_bool('issubclass'))
         raise Unsupported('issubclass', node)
 
     # ---- list / bytearray methods ---------------------------------------------------------------
